@@ -7,6 +7,7 @@ CONSTANTS
   ScalarRule = "fill_is_unset"
   ListRule = "own_file"
   DfltSpace <- PlainDflt
+  ArrSpace <- OneArr
   LayoutSpace <- TwoLayouts
 INVARIANT NoWriteError
 INVARIANT RoundTrip
